@@ -1560,8 +1560,9 @@ fn catalogue_inner(prop: &str, t: Tier, seed: u64, out: &mut Vec<Entry>) {
             }
             // a low security parameter brings small sizes into the regime the shape law speaks about
             // (required column openings below the codeword length)
-            for n in if quick { vec![32usize, 64, 100] } else { vec![32usize, 64, 100, 128, 200, 256] } {
-                let mut sz = Size::uni(300, 300, 0);
+            // (4096 and 16384 coefficients: deep enough in the regime for a wrong growth rate of the shape to exceed the factor)
+            for n in if quick { vec![32usize, 64, 100, 4096] } else { vec![32usize, 64, 100, 128, 200, 256, 1024, 4096, 16384] } {
+                let mut sz = Size::uni(n.max(300), n.max(300), 0);
                 sz.ligero = (20, 4, true);
                 let mut c = Cfg::new(sz, vec![PolySpec::new(n).conc()]);
                 c.seed = seed;
